@@ -162,6 +162,7 @@ def case_hash(case) -> str:
 
 def eval_cases(mod, cases: list) -> list[dict]:
     """Runs impl + driver + judge on the cases; returns one record per case."""
+    _enter_scratch()
     reqs, obss = [], []
     for c in cases:
         try:
@@ -196,9 +197,28 @@ def default_judge(case, obs, resp) -> dict:
     return {"status": "ok", "why": ""}
 
 
+_SCRATCH = None
+
+
+def _enter_scratch():
+    """cfinterface treats a content string that names an existing file as a path:
+    run in an empty scratch directory (outside /repo and /verif, removed at exit)."""
+    global _SCRATCH
+    if _SCRATCH is None:
+        import atexit
+        import shutil
+        import tempfile
+
+        _SCRATCH = tempfile.mkdtemp(prefix="cfi-verif-")
+        os.chdir(_SCRATCH)
+        atexit.register(shutil.rmtree, _SCRATCH, True)
+    return _SCRATCH
+
+
 def _work(args):
     modname, chunk = args
     sys.path.insert(0, str(REPO))
+    _enter_scratch()
     mod = importlib.import_module(modname)
     t0 = time.time()
     cases = list(mod.cases_of(chunk))
